@@ -214,7 +214,7 @@ fn forced_shard(key: &str) -> Option<usize> {
 
 /// the diamond graph of MC_NsCache / MC_NsReplay, `is` lists in the rank order the model iterates in
 fn model_grid() -> Grid {
-    let rows: Vec<(String, Vec<String>)> = vec![("a", vec!["b", "c"]), ("b", vec!["d"]), ("c", vec!["d", "u"]), ("d", vec![])]
+    let rows: Vec<(String, Vec<String>)> = vec![("a", vec!["b", "c"]), ("b", vec!["d"]), ("c", vec!["d", "r", "u"]), ("d", vec![]), ("r", vec![])]
         .into_iter()
         .map(|(d, is)| (d.to_string(), is.into_iter().map(|s| s.to_string()).collect()))
         .collect();
@@ -354,8 +354,9 @@ fn small_grid() -> Grid {
     let rows: Vec<(String, Vec<String>)> = vec![
         ("a", vec!["b", "c"]),
         ("b", vec!["d"]),
-        ("c", vec!["d", "u"]),
+        ("c", vec!["d", "r", "u"]),
         ("d", vec![]),
+        ("r", vec![]),
         ("a-b", vec!["a"]),
         ("entity", vec![]),
         ("e", vec!["entity", "d"]),
@@ -398,7 +399,7 @@ fn random_query(rng: &mut Rng, syms: &[String]) -> Q {
 pub fn rec(out: &mut Out, seed: u64, rounds: usize) -> Result<(), String> {
     let mut rng = Rng::new(seed);
     let small = small_grid();
-    let small_syms: Vec<String> = ["a", "b", "c", "d", "u", "a-b", "e", "entity", "zz"].iter().map(|s| s.to_string()).collect();
+    let small_syms: Vec<String> = ["a", "b", "c", "d", "r", "u", "a-b", "e", "entity", "zz"].iter().map(|s| s.to_string()).collect();
     let real = real_defs_grid()?;
     let mut real_syms: Vec<String> = real.rows.iter().filter_map(|r| r.get_symbol("def").map(|s| s.value.clone())).collect();
     real_syms.sort();
@@ -436,11 +437,7 @@ pub fn run(vec: &J, out: &mut Out) -> Result<(), String> {
     match op {
         "ns.history" => {
             // a sequential history enumerated by TLC over the model's diamond graph: [["inh","a"],["fits","a","d"],...]
-            let rows: Vec<(String, Vec<String>)> = vec![("a", vec!["b", "c"]), ("b", vec!["d"]), ("c", vec!["d", "u"]), ("d", vec![])]
-                .into_iter()
-                .map(|(d, is)| (d.to_string(), is.into_iter().map(|s| s.to_string()).collect()))
-                .collect();
-            let grid = grid_of(&rows, false);
+            let grid = model_grid();
             let qs: Vec<Q> = vec["prog"].as_array().ok_or("prog")?.iter().map(q_of).collect::<Result<_, _>>()?;
             round(out, &grid, vec![qs], "history");
             Ok(())
